@@ -88,16 +88,28 @@ namespace detail
 	};
 
 	template<qualifier Q>
+	struct compute_mod<3, float, Q, true>
+	{
+		GLM_FUNC_QUALIFIER static vec<3, float, Q> call(vec<3, float, Q> const& x, vec<3, float, Q> const& y)
+		{
+			vec<3, float, Q> result;
+			result.data = glm_vec4_mod(x.data, y.data);	// true division, also for aligned_lowp (operator/ would use rcp)
+			return result;
+		}
+	};
+
+	template<qualifier Q>
 	struct compute_min_vector<4, float, Q, true>
 	{
 		GLM_FUNC_QUALIFIER static vec<4, float, Q> call(vec<4, float, Q> const& v1, vec<4, float, Q> const& v2)
 		{
 			vec<4, float, Q> result;
-			result.data = _mm_min_ps(v1.data, v2.data);
+			result.data = _mm_min_ps(v2.data, v1.data);	// y < x ? y : x, also for NaN and signed zeros
 			return result;
 		}
 	};
 
+#	if GLM_ARCH & GLM_ARCH_SSE41_BIT
 	template<qualifier Q>
 	struct compute_min_vector<4, int, Q, true>
 	{
@@ -108,7 +120,9 @@ namespace detail
 			return result;
 		}
 	};
+#	endif
 
+#	if GLM_ARCH & GLM_ARCH_SSE41_BIT
 	template<qualifier Q>
 	struct compute_min_vector<4, uint, Q, true>
 	{
@@ -119,6 +133,7 @@ namespace detail
 			return result;
 		}
 	};
+#	endif
 
 	template<qualifier Q>
 	struct compute_max_vector<4, float, Q, true>
@@ -126,11 +141,12 @@ namespace detail
 		GLM_FUNC_QUALIFIER static vec<4, float, Q> call(vec<4, float, Q> const& v1, vec<4, float, Q> const& v2)
 		{
 			vec<4, float, Q> result;
-			result.data = _mm_max_ps(v1.data, v2.data);
+			result.data = _mm_max_ps(v2.data, v1.data);	// x < y ? y : x, also for NaN and signed zeros
 			return result;
 		}
 	};
 
+#	if GLM_ARCH & GLM_ARCH_SSE41_BIT
 	template<qualifier Q>
 	struct compute_max_vector<4, int, Q, true>
 	{
@@ -141,7 +157,9 @@ namespace detail
 			return result;
 		}
 	};
+#	endif
 
+#	if GLM_ARCH & GLM_ARCH_SSE41_BIT
 	template<qualifier Q>
 	struct compute_max_vector<4, uint, Q, true>
 	{
@@ -152,6 +170,7 @@ namespace detail
 			return result;
 		}
 	};
+#	endif
 
 	template<qualifier Q>
 	struct compute_clamp_vector<4, float, Q, true>
@@ -159,11 +178,12 @@ namespace detail
 		GLM_FUNC_QUALIFIER static vec<4, float, Q> call(vec<4, float, Q> const& x, vec<4, float, Q> const& minVal, vec<4, float, Q> const& maxVal)
 		{
 			vec<4, float, Q> result;
-			result.data = _mm_min_ps(_mm_max_ps(x.data, minVal.data), maxVal.data);
+			result.data = _mm_min_ps(maxVal.data, _mm_max_ps(minVal.data, x.data));
 			return result;
 		}
 	};
 
+#	if GLM_ARCH & GLM_ARCH_SSE41_BIT
 	template<qualifier Q>
 	struct compute_clamp_vector<4, int, Q, true>
 	{
@@ -174,7 +194,9 @@ namespace detail
 			return result;
 		}
 	};
+#	endif
 
+#	if GLM_ARCH & GLM_ARCH_SSE41_BIT
 	template<qualifier Q>
 	struct compute_clamp_vector<4, uint, Q, true>
 	{
@@ -185,6 +207,7 @@ namespace detail
 			return result;
 		}
 	};
+#	endif
 
 	template<qualifier Q>
 	struct compute_mix_vector<4, float, bool, Q, true>
@@ -255,7 +278,7 @@ namespace detail
 		GLM_FUNC_QUALIFIER static vec<4, double, Q> call(vec<4, double, Q> const& a, vec<4, double, Q> const& b, vec<4, double, Q> const& c)
 		{
 			vec<4, double, Q> Result;
-#	if (GLM_ARCH & GLM_ARCH_AVX2_BIT) && !(GLM_COMPILER & GLM_COMPILER_CLANG)
+#	if defined(GLM_FORCE_FMA) && (GLM_ARCH & GLM_ARCH_AVX2_BIT)
 			Result.data = _mm256_fmadd_pd(a.data, b.data, c.data);
 #	elif (GLM_ARCH & GLM_ARCH_AVX_BIT)
 			Result.data = _mm256_add_pd(_mm256_mul_pd(a.data, b.data), c.data);
